@@ -35,7 +35,7 @@ CLAIMED.update({
     "C02": _ch("C02", "ids, version markers, parameters, return values; body = parser outcome", "DESIGN.md 3/C02"),
     "C03": _ch("C03", "ids of every JSON kind, parameters; batch compositions n<=2/3", "DESIGN.md 3/C03"),
     "C04": _ch("C04", "ids, parameters; notification form x outcome x batch position x dispatch/pool configuration", "DESIGN.md 3/C04",
-               "Trusted: as for C02, plus the recording pool standing for a ThreadPool that obeys C09 (composition argument: the dispatcher enqueues exactly one right task; C09 decides that every enqueued task runs exactly once)."),
+               "Trusted: as for C02; the dispatcher side uses a recording pool, the pool side is decided on the transition system compiled from threadpool.py (engine TS, trusted base as for C09)."),
     "C05": _ch("C05", "ids and parameters; failure classes, method-name and message tables", "DESIGN.md 3/C05"),
     "C07": _ch("C07", "field values of generated class definitions; positions; direct and over the loopback RPC path", "DESIGN.md 3/C07"),
     "C08": dict(_ch("C08", "descriptor forms, depths, table names; tripwires", "DESIGN.md 3/C08"),
